@@ -323,11 +323,45 @@ def cbody1(rng, nl=False, line=False):
     return s
 
 
-def directive(rng):
+# (a \r that is not followed by \n is a line end for gcc -- old Mac line ends -- so inside a directive line only \f and \v
+#  are white space; \r is used as the \r of a \r\n line end)
+OTHER_WS = ["\f", "\v", " \f", "\f ", "\v\t", "\f\v"]
+
+
+def directive(rng, other_ws=True):
+    """a line directive; with other_ws, \\r \\f \\v are put ON the directive line (before the '#', between '#' and the
+    number, between the fields, after the file name / flags, at the end of the line, also as the \\r of a \\r\\n line end):
+    all white space for a C compiler, and cffi must treat the line as it treats the blank-only form"""
     n = rng.randrange(1, 500)
     f = rng.choice(["foo.h", "a//b.h", "x/*y.h", "d/e f.h", "<built-in>"])
-    return rng.choice(['# %d "%s"' % (n, f), '#line %d' % n, '#line %d "%s"' % (n, f), '  #  %d  "%s"' % (n, f),
-                       '# %d' % n, '# %d "%s" 1' % (n, f)])
+    fields = rng.choice([["#", "%d" % n, '"%s"' % f], ["#line", "%d" % n], ["#line", "%d" % n, '"%s"' % f],
+                         ["#", "%d" % n], ["#", "%d" % n, '"%s"' % f, "1"], ["#", "line", "%d" % n, '"%s"' % f]])
+    lead = rng.choice(["", "", "  ", "\t"])
+    gaps = [rng.choice([" ", " ", "  ", "\t"]) for _ in fields[1:]]
+    if fields[0] == "#" and rng.random() < 0.3:
+        gaps[0] = ""                                   # "#12" / "#line"
+        if fields[1] == "line":
+            pass
+    tail = rng.choice(["", "", " ", "\t"])
+    if other_ws and rng.random() < 0.5:
+        for _ in range(rng.randrange(1, 3)):
+            k = rng.randrange(4)
+            w = rng.choice(OTHER_WS)
+            if k == 0:
+                lead = rng.choice([w, lead + w, w + lead])
+            elif k == 1:
+                j = rng.randrange(len(gaps))
+                gaps[j] = rng.choice([w, gaps[j] + w, w + gaps[j]]) if gaps[j] or fields[0] == "#" else w
+            elif k == 2:
+                tail = rng.choice([w, tail + w])
+            else:
+                tail = tail + "\r"                     # the line ends with \r\n
+    if fields[:2] == ["#", "line"] and gaps[0] == "":
+        pass                                            # "#line"
+    out = lead + fields[0]
+    for g, fld in zip(gaps, fields[1:]):
+        out += g + fld
+    return out + tail
 
 
 HWS = [" ", " ", "\t", "  ", " \t ", "\f", " \v"]          # \r \f \v: fixed finding other_whitespace, now in the main stream
@@ -514,9 +548,9 @@ def make_variant(rng, items, special=None):
             if isinstance(spec_item, tuple) and spec_item[0] == idx:
                 j = spec_item[1] + 1
                 if special == "directive_in_rewritten_construct":
-                    fl[j] = "\n" + directive(rng) + "\n"
+                    fl[j] = "\n" + directive(rng, other_ws=False) + "\n"
                 elif special == "comment_on_directive_line":
-                    d = directive(rng)
+                    d = directive(rng, other_ws=False)
                     c = "/*" + cbody(rng) + "*/"
                     fl[j] = "\n" + rng.choice([c + " " + d, d + " " + c, d + " //" + cbody(rng, line=True),
                                                d.replace("#", "# " + c, 1) if d.lstrip().startswith("# ") else c + d]) + "\n"
@@ -558,6 +592,15 @@ def generate(ctx):
         dict(kind="meta", base="int a [ 6 / 2 ] ;\n", variant="int a[6 / /* 3 */2];\n", partial=False, tags=["blk"],
              special=None),
     ]
+    # \r \f \v on a directive line, every position (all handled by the tree as of ec3bae5)
+    for w_ in ("\f", "\v"):
+        for var in ("int x ;\n%s# 12 \"foo.h\"\nint y ;\n", "int x ;\n#%s12 \"foo.h\"\nint y ;\n", "int x ;\n# 12%s\"foo.h\"\nint y ;\n",
+                    "int x ;\n# 12 \"foo.h\"%s\nint y ;\n", "int x ;\n# 12 \"foo.h\" 1%s\nint y ;\n", "int x ;\n#line%s12\nint y ;\n",
+                    "int\n#line 12%s\nx ; int y ;\n"):
+            corpus.append(dict(kind="meta", base="int x ;\nint y ;\n", variant=var % w_, partial=False, tags=["dir", "ows"],
+                               special=None))
+    corpus.append(dict(kind="meta", base="int x ;\nint y ;\n", variant="int x ;\r\n# 12 \"foo.h\"\r\nint y ;\r\n", partial=False,
+                       tags=["dir", "ows"], special=None))
     # witnesses of the known findings (reported under their key while open; silent once repaired)
     def w(base, variant, key, partial=False):
         return dict(kind="meta", base=base, variant=variant, partial=partial, tags=[], special=key)
